@@ -178,17 +178,16 @@ Definition plain (arg : list ast) : bool :=
 Definition single (arg : list ast) : bool :=
   match arg with [ALit _] => true | [AEsc _ _] => true | _ => false end.
 
-Definition is_name (nm : str) (a b : String.string) : bool := one_of nm a b.
-Arguments is_name nm (a b)%string.
+Definition is_name (nm a b : str) : bool := one_of nm a b.
 
 Definition leaf_name (nm : str) : bool :=
-  is_name nm "l" "level" || is_name nm "m" "message" || is_name nm "M" "module" ||
-  is_name nm "n" "n" || is_name nm "f" "file" || is_name nm "L" "line" ||
-  is_name nm "T" "thread" || is_name nm "I" "thread_id" || is_name nm "P" "pid" ||
-  is_name nm "i" "tid" || is_name nm "t" "target".
+  is_name nm (LIT "l") (LIT "level") || is_name nm (LIT "m") (LIT "message") || is_name nm (LIT "M") (LIT "module") ||
+  is_name nm (LIT "n") (LIT "n") || is_name nm (LIT "f") (LIT "file") || is_name nm (LIT "L") (LIT "line") ||
+  is_name nm (LIT "T") (LIT "thread") || is_name nm (LIT "I") (LIT "thread_id") || is_name nm (LIT "P") (LIT "pid") ||
+  is_name nm (LIT "i") (LIT "tid") || is_name nm (LIT "t") (LIT "target").
 
 Definition group_name (nm : str) : bool :=
-  is_name nm "h" "highlight" || is_name nm "D" "debug" || is_name nm "R" "release" ||
+  is_name nm (LIT "h") (LIT "highlight") || is_name nm (LIT "D") (LIT "debug") || is_name nm (LIT "R") (LIT "release") ||
   str_eqb nm [].
 
 Section Meaning.
@@ -197,32 +196,32 @@ Section Meaning.
   Variable e : env.
 
   Definition leaf_value (nm : str) : str :=
-    if is_name nm "l" "level" then level_str (e_level e)
-    else if is_name nm "m" "message" then e_msg e
-    else if is_name nm "M" "module" then opt_or (e_module e) (lit "???")
-    else if is_name nm "n" "n" then [10]
-    else if is_name nm "f" "file" then opt_or (e_file e) (lit "???")
-    else if is_name nm "L" "line" then match e_line e with Some n => dec n | None => lit "???" end
-    else if is_name nm "T" "thread" then opt_or (e_thread e) (lit "unnamed")
-    else if is_name nm "I" "thread_id" then dec (e_tid e)
-    else if is_name nm "P" "pid" then dec (e_pid e)
-    else if is_name nm "i" "tid" then dec (e_systid e)
+    if is_name nm (LIT "l") (LIT "level") then level_str (e_level e)
+    else if is_name nm (LIT "m") (LIT "message") then e_msg e
+    else if is_name nm (LIT "M") (LIT "module") then opt_or (e_module e) (LIT "???")
+    else if is_name nm (LIT "n") (LIT "n") then [10]
+    else if is_name nm (LIT "f") (LIT "file") then opt_or (e_file e) (LIT "???")
+    else if is_name nm (LIT "L") (LIT "line") then match e_line e with Some n => dec n | None => (LIT "???") end
+    else if is_name nm (LIT "T") (LIT "thread") then opt_or (e_thread e) (LIT "unnamed")
+    else if is_name nm (LIT "I") (LIT "thread_id") then dec (e_tid e)
+    else if is_name nm (LIT "P") (LIT "pid") then dec (e_pid e)
+    else if is_name nm (LIT "i") (LIT "tid") then dec (e_systid e)
     else e_target e.
 
   Definition group_value (nm : str) (body : list item) : list item :=
-    if is_name nm "h" "highlight" then
+    if is_name nm (LIT "h") (LIT "highlight") then
       match level_style (e_level e) with
       | Some s => [St s] ++ body ++ [St 0]
       | None => body
       end
-    else if is_name nm "D" "debug" then (if e_debug e then body else [])
-    else if is_name nm "R" "release" then (if e_debug e then [] else body)
+    else if is_name nm (LIT "D") (LIT "debug") then (if e_debug e then body else [])
+    else if is_name nm (LIT "R") (LIT "release") then (if e_debug e then [] else body)
     else body.
 
   Definition date_value (args : list (list ast)) : str :=
-    let fmt := match args with f :: _ => text_of_arg f | [] => lit "%+" end in
+    let fmt := match args with f :: _ => text_of_arg f | [] => (LIT "%+") end in
     let zone := match args with
-                | [_; [ALit z]] => if str_eqb z (lit "utc") then Utc else Local
+                | [_; [ALit z]] => if str_eqb z (LIT "utc") then Utc else Local
                 | _ => Local
                 end in
     time_str fmt zone.
@@ -247,7 +246,7 @@ Section Meaning.
                            | arg :: _ => flat_map meaning arg
                            | [] => []
                            end)
-         else if is_name nm "d" "date" then chars (date_value args)
+         else if is_name nm (LIT "d") (LIT "date") then chars (date_value args)
          else chars (mdc_value args))
     end.
 
@@ -257,10 +256,10 @@ Section Meaning.
 
   Definition date_args_ok (args : list (list ast)) : bool :=
     match args with
-    | [] => strftime_ok (lit "%+")
+    | [] => strftime_ok (LIT "%+")
     | [f] => plain f && strftime_ok (text_of_arg f)
     | [f; [ALit z]] =>
-      plain f && strftime_ok (text_of_arg f) && (str_eqb z (lit "utc") || str_eqb z (lit "local"))
+      plain f && strftime_ok (text_of_arg f) && (str_eqb z (LIT "utc") || str_eqb z (LIT "local"))
     | _ => false
     end.
 
@@ -293,8 +292,8 @@ Section Meaning.
          | [arg] => forallb sem_ok arg
          | _ => false
          end
-       else if is_name nm "d" "date" then date_args_ok args
-       else if is_name nm "X" "mdc" then mdc_args_ok args
+       else if is_name nm (LIT "d") (LIT "date") then date_args_ok args
+       else if is_name nm (LIT "X") (LIT "mdc") then mdc_args_ok args
        else false)
     end.
 
@@ -310,7 +309,7 @@ Section Meaning.
         | [arg] => existsb in_known_class arg
         | _ => false
         end
-      else if is_name nm "X" "mdc" then mdc_first_piece_class args
+      else if is_name nm (LIT "X") (LIT "mdc") then mdc_first_piece_class args
       else false
     end.
 
@@ -326,8 +325,8 @@ Section Meaning.
          | [arg] => forallb sem_ok_mod_class arg
          | _ => false
          end
-       else if is_name nm "d" "date" then date_args_ok args
-       else if is_name nm "X" "mdc" then mdc_args_ok args || mdc_first_piece_class args
+       else if is_name nm (LIT "d") (LIT "date") then date_args_ok args
+       else if is_name nm (LIT "X") (LIT "mdc") then mdc_args_ok args || mdc_first_piece_class args
        else false)
     end.
 End Meaning.
@@ -336,7 +335,7 @@ End Meaning.
 Fixpoint unhighlight (a : ast) : ast :=
   match a with
   | AFmt nm args sp =>
-    AFmt (if is_name nm "h" "highlight" then [] else nm)
+    AFmt (if is_name nm (LIT "h") (LIT "highlight") then [] else nm)
          (map (map unhighlight) args) sp
   | other => other
   end.
@@ -350,7 +349,7 @@ Definition strip (l : list item) : list item :=
    the first piece only and accepts it *)
 Definition tz_arg_class (arg : list piece) : bool :=
   match arg with
-  | PText z :: _ :: _ => str_eqb z (lit "utc") || str_eqb z (lit "local")
+  | PText z :: _ :: _ => str_eqb z (LIT "utc") || str_eqb z (LIT "local")
   | _ => false
   end.
 
@@ -359,14 +358,14 @@ Section TzClass.
 
   Definition tz_date_class (args : list (list piece)) : bool :=
     negb (Nat.ltb 2 (length args)) &&
-    strftime_ok (match args with a :: _ => date_format_of a | [] => lit "%+" end) &&
+    strftime_ok (match args with a :: _ => date_format_of a | [] => (LIT "%+") end) &&
     match nth_error args 1 with Some a => tz_arg_class a | None => false end.
 
   (* reached by compile: top level or through groups with exactly one argument *)
   Fixpoint tz_class (p : piece) : bool :=
     match p with
     | PArg nm args _ =>
-      if one_of nm "d" "date" then tz_date_class args
+      if one_of nm (LIT "d") (LIT "date") then tz_date_class args
       else if group_name nm then
         match args with
         | [arg] => existsb tz_class arg
